@@ -88,7 +88,7 @@ fn resp_call<'h, 'b>(resp: &mut Response<'h, 'b>, op: Op, buf: &'b [u8], u: &'h 
 
 /// Returns (reused-value probe, fresh-value probe, headers.len() before the probe,
 /// statuses of the history calls).
-fn interpret(kind: Kind, ops: &[Op], bufs: &[Vec<u8>], probe: Op, pbuf: &[u8], cap0: usize) -> (Obs, Obs, usize, Vec<St>) {
+fn interpret(kind: Kind, ops: &[Op], bufs: &[&[u8]], probe: Op, pbuf: &[u8], cap0: usize) -> (Obs, Obs, usize, Vec<St>) {
     let mut arr: Vec<Header<'_>> = vec![EMPTY_HEADER; cap0];
     let mut uarrs: Vec<Vec<MaybeUninit<Header<'_>>>> =
         ops.iter().chain(std::iter::once(&probe)).map(|o| vec![MaybeUninit::uninit(); o.ucap]).collect();
@@ -102,7 +102,7 @@ fn interpret(kind: Kind, ops: &[Op], bufs: &[Vec<u8>], probe: Op, pbuf: &[u8], c
         let mut req = Request::new(&mut arr[..]);
         for (i, op) in ops.iter().enumerate() {
             let u = uit.next().unwrap();
-            sts.push(req_call(&mut req, *op, &bufs[i], &mut u[..]));
+            sts.push(req_call(&mut req, *op, bufs[i], &mut u[..]));
         }
         len_before = req.headers.len();
         o1.st = req_call(&mut req, probe, pbuf, &mut uit.next().unwrap()[..]);
@@ -128,7 +128,7 @@ fn interpret(kind: Kind, ops: &[Op], bufs: &[Vec<u8>], probe: Op, pbuf: &[u8], c
         let mut resp = Response::new(&mut arr[..]);
         for (i, op) in ops.iter().enumerate() {
             let u = uit.next().unwrap();
-            sts.push(resp_call(&mut resp, *op, &bufs[i], &mut u[..]));
+            sts.push(resp_call(&mut resp, *op, bufs[i], &mut u[..]));
         }
         len_before = resp.headers.len();
         o1.st = resp_call(&mut resp, probe, pbuf, &mut uit.next().unwrap()[..]);
@@ -151,26 +151,30 @@ fn interpret(kind: Kind, ops: &[Op], bufs: &[Vec<u8>], probe: Op, pbuf: &[u8], c
     (o1, o2, len_before, sts)
 }
 
-fn decode_ops(rec: &CaseRec) -> (Vec<Op>, Op) {
-    // aux = [entry, cfg, ucap] per history op, then the probe's ucap
-    let n = rec.bufs.len();
+/// aux = [entry, cfg, ucap, kind, a, b] per history op, then the probe's ucap.
+/// kind 0: the op parses its own buffer rec.bufs[i]; kind 1: it parses arena[a..b], a slice
+/// of the *same allocation* as the probe (arena = bufs[n] ++ probe ++ bufs[n+1]).
+fn decode_ops(rec: &CaseRec) -> (Vec<(Op, u64, usize, usize)>, Op) {
+    let n = rec.bufs.len().saturating_sub(2);
     let mut ops = vec![];
     for i in 0..n {
-        ops.push(Op {
-            entry: Entry::from_u8(rec.aux[3 * i] as u8),
-            cfg: rec.aux[3 * i + 1] as u8,
-            ucap: rec.aux[3 * i + 2] as usize,
-        });
+        let g = |k: usize| rec.aux.get(6 * i + k).copied().unwrap_or(0);
+        ops.push((
+            Op { entry: Entry::from_u8(g(0) as u8), cfg: g(1) as u8, ucap: (g(2) as usize).min(4096) },
+            g(3),
+            g(4) as usize,
+            g(5) as usize,
+        ));
     }
-    let probe = Op { entry: rec.entry, cfg: rec.cfg, ucap: rec.aux.get(3 * n).copied().unwrap_or(8) as usize };
+    let probe = Op { entry: rec.entry, cfg: rec.cfg, ucap: (rec.aux.get(6 * n).copied().unwrap_or(8) as usize).min(4096) };
     (ops, probe)
 }
 
 pub fn check(r: &Runner, _ctx: &mut Ctx, l: &mut Local, rec: &CaseRec) -> Result<(), Violation> {
     let kind = rec.kind();
-    let (mut ops, probe) = decode_ops(rec);
+    let (mut ops4, probe) = decode_ops(rec);
     // history entries must be of the probe's kind
-    for o in ops.iter_mut() {
+    for (o, _, _, _) in ops4.iter_mut() {
         if o.entry.kind() != kind {
             o.entry = entries_of(kind)[(o.entry as usize) % 4];
         }
@@ -178,9 +182,30 @@ pub fn check(r: &Runner, _ctx: &mut Ctx, l: &mut Local, rec: &CaseRec) -> Result
             o.cfg = 0;
         }
     }
+    let n = ops4.len();
+    let empty: Vec<u8> = vec![];
+    let before = rec.bufs.get(n).unwrap_or(&empty);
+    let after = rec.bufs.get(n + 1).unwrap_or(&empty);
+    let arena: Vec<u8> = [&before[..], &rec.buf[..], &after[..]].concat();
+    let p0 = before.len();
+    let pbuf: &[u8] = &arena[p0..p0 + rec.buf.len()];
+    let ops: Vec<Op> = ops4.iter().map(|x| x.0).collect();
+    let slices: Vec<&[u8]> = ops4
+        .iter()
+        .enumerate()
+        .map(|(i, (_, k, a, b))| {
+            if *k == 1 {
+                let a = (*a).min(arena.len());
+                let b = (*b).clamp(a, arena.len());
+                &arena[a..b]
+            } else {
+                &rec.bufs[i][..]
+            }
+        })
+        .collect();
     IN_PARSER.with(|c| c.set(true));
     let res = std::panic::catch_unwind(std::panic::AssertUnwindSafe(|| {
-        interpret(kind, &ops, &rec.bufs, probe, &rec.buf, rec.cap)
+        interpret(kind, &ops, &slices, probe, pbuf, rec.cap)
     }));
     IN_PARSER.with(|c| c.set(false));
     let (o1, o2, len_before, sts) = match res {
@@ -221,11 +246,18 @@ pub fn check(r: &Runner, _ctx: &mut Ctx, l: &mut Local, rec: &CaseRec) -> Result
         if len_before != rec.cap {
             l.bump("headers-slice-shrunk-before-probe");
         }
+        if ops4.iter().any(|x| x.1 == 1) {
+            l.bump("history-with-a-slice-of-the-probe's-allocation");
+        }
     }
     let interesting_hist = sts.iter().any(|s| matches!(s, St::Complete(_) | St::Partial));
     let nt = interesting_hist && (o1.version.is_some() || o1.method.is_some());
     r.account(l, rec, nt, &format!("history {:?} probe {}", sts.iter().map(|s| s.class()).collect::<Vec<_>>(), o1.st.show()));
     Ok(())
+}
+
+fn kind_of(_k: u64, e: Entry) -> Kind {
+    e.kind()
 }
 
 fn gen_history(u: &mut Choice, profile: &Profile) -> CaseRec {
@@ -239,24 +271,49 @@ fn gen_history(u: &mut Choice, profile: &Profile) -> CaseRec {
     let mut bufs = vec![];
     let mut aux = vec![];
     let readme_loop = u.chance(80);
+    // the probe lives inside a larger allocation: a few bytes before and after it
+    let before: Vec<u8> = match u.weighted(&[160, 50, 46]) {
+        0 => vec![],
+        1 => b"\r\n".to_vec(),
+        _ => {
+            let n = u.range(1, 6);
+            (0..n).map(|i| b"XY\nZ 9"[i % 6]).collect()
+        }
+    };
+    let after: Vec<u8> = if u.chance(80) { b"trailing body\r\n\r\n".to_vec() } else { vec![] };
+    let p0 = before.len();
+    let alen = p0 + pbuf.len() + after.len();
     for i in 0..nops {
+        let mut kind = 0u64;
+        let (mut a, mut b) = (0usize, 0usize);
         let buf = if readme_loop {
-            // growing prefixes of the probe buffer: the documented parse / read more / parse again loop
+            // growing prefixes of the probe buffer, in place: the documented parse / read more / parse again loop
             let k = (pbuf.len() * (i + 1)) / (nops + 1);
             let jitter = u.below(8);
-            pbuf[..(k + jitter).min(pbuf.len())].to_vec()
+            kind = 1;
+            a = p0;
+            b = p0 + (k + jitter).min(pbuf.len());
+            vec![]
         } else {
-            match u.weighted(&[120, 60, 40, 36]) {
-                0 => gen::message(u, kind, profile).0,
+            match u.weighted(&[100, 40, 30, 36, 50]) {
+                0 => gen::message(u, kind_of(kind, pentry), profile).0,
                 1 => {
                     let k = u.below(pbuf.len() + 1);
                     pbuf[..k].to_vec()
                 }
                 2 => pbuf.clone(),
-                _ => match kind {
+                3 => match pentry.kind() {
                     Kind::Request => b"GET /first HTTP/1.0\r\nA: b\r\nC: d\r\nE: f\r\n\r\n".to_vec(),
                     _ => b"HTTP/1.0 404 Not Found\r\nA: b\r\nC: d\r\nE: f\r\n\r\n".to_vec(),
                 },
+                _ => {
+                    // a slice of the same allocation with a different start and/or end
+                    kind = 1;
+                    a = (p0 + u.below(8)).saturating_sub(u.below(8).min(p0));
+                    b = if u.chance(128) { alen } else { alen - u.below(alen.min(24) + 1) };
+                    a = a.min(b);
+                    vec![]
+                }
             }
         };
         let mut cfg = pick_cfg(u);
@@ -267,12 +324,12 @@ fn gen_history(u: &mut Choice, profile: &Profile) -> CaseRec {
         if readme_loop {
             cfg = pcfg;
         }
-        aux.push(e as u64);
-        aux.push(cfg as u64);
-        aux.push(pick_cap(u, 3) as u64);
+        aux.extend_from_slice(&[e as u64, cfg as u64, pick_cap(u, 3) as u64, kind, a as u64, b as u64]);
         bufs.push(buf);
     }
     aux.push(pick_cap(u, nlines + 1) as u64);
+    bufs.push(before);
+    bufs.push(after);
     let mut rec = CaseRec::new("history", pentry, pcfg, cap0, pbuf);
     rec.aux = aux;
     rec.bufs = bufs;
@@ -322,8 +379,8 @@ pub fn run(r: &Runner) {
         let msgs: &[&[u8]] = if kind == Kind::Request { &REQS } else { &RESPS };
         let es = entries_of(kind);
         let mut rec = CaseRec::new("history", es[pe], 0, cap, msgs[pi].to_vec());
-        rec.bufs = vec![msgs[hi].to_vec()];
-        rec.aux = vec![es[he] as u64, 0, 4, 4];
+        rec.bufs = vec![msgs[hi].to_vec(), vec![], vec![]];
+        rec.aux = vec![es[he] as u64, 0, 4, 0, 0, 0, 4];
         check(r, ctx, l, &rec)
     });
 }
